@@ -7,7 +7,7 @@ package node
 // nopanic: the subtraction and the division below panic for TotalReward >= 400000000000000sao (DESIGN 7.7).
 //@ func GetRewardAge(pool) (age)
 //@   functional
-//@   nopanic [C02.age]
+//@   nopanic [C02.age] when pool.TotalReward.Denom == "sao"
 
 // BeginBlocker: mints the per-block storage reward.
 //@ func BeginBlocker(ctx, k)
